@@ -1,6 +1,8 @@
 package p_kv
 
 import (
+	"context"
+	"github.com/acquirecloud/golibs/kvs"
 	"testing"
 	"testing/synctest"
 	"time"
@@ -336,6 +338,15 @@ func TestReplay(t *testing.T) {
 		runC02Wire(t, "TestReplay", c)
 		return
 	}
+	if env.Test == "TestC02RedisLostReply" {
+		var c WireCase
+		if _, err := vstat.LoadReplay(p, &c); err != nil {
+			t.Fatalf("cannot decode %s: %v", p, err)
+		}
+		_, v := RunWire(c)
+		vstat.For("C02").Report(t, "TestReplay", c, v)
+		return
+	}
 	if env.Test == "TestC06RedisWire" {
 		var c WireCase
 		if _, err := vstat.LoadReplay(p, &c); err != nil {
@@ -423,4 +434,80 @@ func replaySeq(t *testing.T, env *vstat.Envelope, p string) {
 	default:
 		t.Fatalf("replay of %s/%s is not handled here", env.Property, env.Test)
 	}
+}
+
+// TestC06RedisExact: a record must be gone once the server has aged by ExpiresAt - t0, where t0 was read BEFORE the write
+// call (any correct TTL is at most ExpiresAt minus the time of the call), and must still be there two milliseconds and
+// the duration of the call earlier. Every write path, expiries with odd sub-millisecond parts.
+func TestC06RedisExact(t *testing.T) {
+	st := vstat.For("C06")
+	m, s, err := Redis()
+	if err != nil {
+		t.Fatalf("INFRA: cannot start miniredis: %v", err)
+	}
+	ctx := context.Background()
+	type ecase struct {
+		Write string `json:"write"`
+		D     int64  `json:"d_ns"`
+	}
+	run := func(c ecase) *vstat.Violation {
+		m.FlushAll()
+		key := "exact"
+		d := time.Duration(c.D)
+		ver := ""
+		if c.Write == "cas" {
+			r, err := s.Put(ctx, kvs.Record{Key: key, Value: []byte("0")})
+			if err != nil {
+				return vstat.V("redis:setup", "Put: %v", err)
+			}
+			ver = r.Version
+		}
+		t0 := time.Now()
+		exp := t0.Add(d)
+		var werr error
+		switch c.Write {
+		case "put":
+			_, werr = s.Put(ctx, kvs.Record{Key: key, Value: []byte("v"), ExpiresAt: &exp})
+		case "putmany":
+			werr = s.PutMany(ctx, []kvs.Record{{Key: key, Value: []byte("v"), ExpiresAt: &exp}, {Key: "other", Value: []byte("w")}})
+		case "create":
+			_, werr = s.Create(ctx, kvs.Record{Key: key, Value: []byte("v"), ExpiresAt: &exp})
+		case "cas":
+			_, werr = s.CasByVersion(ctx, kvs.Record{Key: key, Value: []byte("v"), Version: ver, ExpiresAt: &exp})
+		}
+		took := time.Since(t0)
+		if werr != nil {
+			return vstat.V("redis:write-failed", "%s returned %v", c.Write, werr)
+		}
+		early := d - took - 2*time.Millisecond
+		if early > 0 {
+			m.FastForward(early)
+			if _, err := s.Get(ctx, key); err != nil {
+				return vstat.V("redis:dropped-early", "%s with an expiry %v ahead (the call took %v): after %v of server time Get returns %v", c.Write, d, took, early, err)
+			}
+			m.FastForward(d - early)
+		} else {
+			m.FastForward(d)
+		}
+		if r, err := s.Get(ctx, key); err == nil {
+			return vstat.V("redis:visible-after-expiry", "%s with ExpiresAt = t0 + %v (t0 read before the call): after exactly %v of server time Get still returns the record (ExpiresAt %v)", c.Write, d, d, r.ExpiresAt.Sub(t0))
+		}
+		if _, err := s.Create(ctx, kvs.Record{Key: key, Value: []byte("n")}); err != nil {
+			return vstat.V("redis:visible-after-expiry", "%s with ExpiresAt = t0 + %v: after exactly %v of server time Create returns %v", c.Write, d, d, err)
+		}
+		return nil
+	}
+	n := 0
+	for rep := 0; rep < vstat.Pick(40, 400); rep++ {
+		for _, w := range []string{"put", "putmany", "create", "cas"} {
+			// whole and odd durations from a few milliseconds to hours
+			for _, d := range []time.Duration{5*time.Millisecond + time.Duration(137*(rep+1))*time.Microsecond, time.Second + time.Duration(rep*7919)%time.Millisecond, time.Hour + time.Duration(rep)*333*time.Nanosecond, 1500 * time.Millisecond, 20*time.Millisecond + time.Duration(rep)*time.Microsecond} {
+				c := ecase{Write: w, D: int64(d)}
+				st.Report(t, "TestC06RedisExact", c, run(c))
+				n++
+			}
+		}
+	}
+	st.Case(true, 0xe8ac7, func() any { return map[string]any{"exact_expiry_cases": n} }, "redis_exact_expiry")
+	st.AddExtra("exact_expiry_cases", int64(n))
 }
